@@ -8,7 +8,8 @@
 // Every line of -in is one case computed by TLC: a directory tree, the name of the hooks directory, at most
 // one bad hook, and the result initialization must show (hook names in load order, files whose --config must
 // have run exactly once / at most once, the hook name the error has to contain). The tree is materialised
-// below DIR, every FILE of the tree (hook or not) is a generated sh script that appends its own relative path
+// below DIR, every FILE of the tree (hook or not) is a generated sh script (three of four well-behaved ones also write
+// a warning line to stderr, before and/or after their output) that appends its own relative path
 // and its arguments to an invocation log outside the tree, then the REAL hook.Manager.Init runs on it and
 // GetHookNames(), the invocation log and the error text are compared with the expectation. Nothing about the
 // expected result is recomputed here.
@@ -22,6 +23,7 @@ import (
 	"encoding/json"
 	"flag"
 	"fmt"
+	"hash/fnv"
 	"os"
 	"path/filepath"
 	"reflect"
@@ -72,6 +74,7 @@ type Result struct {
 	Sig    string    `json:"sig,omitempty"`
 	Detail string    `json:"detail,omitempty"`
 	Spawns int       `json:"spawns"`
+	Noisy  int       `json:"noisy"` // loadable hooks of the case whose script also writes to stderr during --config
 	Got    *Observed `json:"got,omitempty"`
 	// RootOnly: the same tree and bad hook pass when the hooks directory is called "hooks"
 	RootOnly bool `json:"root_only,omitempty"`
@@ -79,14 +82,31 @@ type Result struct {
 
 const validConfig = `{"configVersion":"v1","onStartup":1}`
 
-func scriptFor(rel, logPath, behaviour string) string {
+const stderrWarning = "WARNING: kubectl: flag --short is deprecated (hook: still fine)"
+
+// noiseOf decides, from the case alone (so that a replay reproduces it), whether a well-behaved script also writes
+// a warning line to stderr during its run: 0 quiet, 1 before the configuration, 2 after it, 3 both. What a hook
+// prints on stderr is not its configuration: the expectation (it loads) is the same for all four.
+func noiseOf(c *Case, rel string) int {
+	h := fnv.New32a()
+	fmt.Fprintf(h, "%s#%d", rel, len(c.Entries))
+	return int(h.Sum32() % 4)
+}
+
+func scriptFor(rel, logPath, behaviour string, noise int) string {
 	var b strings.Builder
 	b.WriteString("#!/bin/sh\n")
 	// one short line per invocation, written with a single write(2) in append mode
 	fmt.Fprintf(&b, "echo \"%s|$*\" >> '%s'\n", rel, logPath)
 	switch behaviour {
 	case "good":
+		if noise&1 != 0 {
+			fmt.Fprintf(&b, "echo '%s' >&2\n", stderrWarning)
+		}
 		fmt.Fprintf(&b, "echo '%s'\n", validConfig)
+		if noise&2 != 0 {
+			fmt.Fprintf(&b, "echo '%s' >&2\n", stderrWarning)
+		}
 	case "exit": // the run fails and prints nothing
 		b.WriteString("echo 'cannot produce a config' >&2\nexit 1\n")
 	case "exitcfg": // the run fails although a valid config was printed
@@ -149,7 +169,7 @@ func materialise(base string, c *Case, root string) (hooksDir, logPath, tmpDir s
 		if c.Bad != "" && e.Path == c.Bad {
 			beh = c.Kind
 		}
-		if err = os.WriteFile(p, []byte(scriptFor(e.Path, logPath, beh)), 0o644); err != nil {
+		if err = os.WriteFile(p, []byte(scriptFor(e.Path, logPath, beh, noiseOf(c, e.Path))), 0o644); err != nil {
 			return
 		}
 		if err = os.Chmod(p, modeOf(e.X)); err != nil {
@@ -237,7 +257,7 @@ func treeKey(c *Case, root string) string {
 func rewrite(base, root string, c *Case, rel, behaviour string) error {
 	p := filepath.Join(base, root, filepath.FromSlash(rel))
 	// the file exists: WriteFile keeps its mode bits
-	return os.WriteFile(p, []byte(scriptFor(rel, filepath.Join(base, "invocations.log"), behaviour)), 0o644)
+	return os.WriteFile(p, []byte(scriptFor(rel, filepath.Join(base, "invocations.log"), behaviour, noiseOf(c, rel))), 0o644)
 }
 
 // setup puts the tree of c on disk below scratch, reusing the previous one when only the bad hook differs.
@@ -413,6 +433,11 @@ func runCase(c *Case, scratch string) Result {
 		return Result{Case: c.ID, OK: false, Sig: "INFRA", Detail: infra.Error()}
 	}
 	res := Result{Case: c.ID, OK: sig == "", Sig: sig, Detail: detail, Spawns: spawns}
+	for _, n := range c.Once {
+		if n != c.Bad && noiseOf(c, n) != 0 {
+			res.Noisy++
+		}
+	}
 	if sig != "" {
 		res.Got = obs
 		// Diagnosis for the signature: does the very same tree pass when the hooks directory has an ordinary name?
